@@ -247,7 +247,11 @@ def do_call(tw, call, enc, mode, loop):
     flat = []
     for u in carried:
         flat.extend(u if isinstance(u, list) else [u])
-    if 'EOF' in flat:
+    if isinstance(tw, PtyTwin):
+        # on a pty only one piece may be in flight (see gen): carried pieces are delivered one by one, first
+        own = [] if 'EOF' in flat else [conv_unit(u, enc) for u in call['units']]
+        tw.queue = (flat[:flat.index('EOF') + 1] if 'EOF' in flat else flat) + own
+    elif 'EOF' in flat:
         flat = flat[:flat.index('EOF')]
         tw.prewrite(flat)
         tw.queue = ['EOF']
